@@ -560,3 +560,71 @@ func judgeE2E(c *core.Ctx, procs []*e2eProc, limit time.Duration) {
 	c.Oblige("correspondence", "end to end: every browser-side history is accepted by the extracted transport monitor (model/SseTransport.v, no write deadline) and ends at rest with every browser served (C19_transport_accepted_served applies)", followed && ran > 0, "")
 	c.Oblige("correspondence", "end to end: child processes ran to completion; nothing spurious, nothing read twice, POSTs answered 200", clean && ran == len(procs), "")
 }
+
+// ---- contract of the transport model against the real net/http (child kind "contract") ----
+
+type contractEvent struct {
+	K     int  `json:"k"`
+	AgeMs int  `json:"age_ms"`
+	Read  bool `json:"read"`
+}
+
+type contractRun struct {
+	DeadlineMs int             `json:"deadline_ms"`
+	Events     []contractEvent `json:"events"`
+	CutAgeMs   int             `json:"cut_age_ms"`
+	Err        string          `json:"err"`
+}
+
+// judgeContract: what model/SseTransport.v says net/http does with a write deadline, observed on the real library with
+// the real sse.Handler: without a deadline every event is read and the stream stays open; with a deadline d every event
+// broadcast before the connection is d old is read, none broadcast after it is, and the server side ends the stream.
+func judgeContract(c *core.Ctx, p *e2eProc) {
+	const slack = 150
+	select {
+	case <-p.done:
+	case <-time.After(60 * time.Second):
+		if p.cmd.Process != nil {
+			p.cmd.Process.Kill()
+		}
+		<-p.done
+	}
+	var runs []contractRun
+	for _, line := range bytes.Split(p.out.Bytes(), []byte("\n")) {
+		var r struct {
+			Contract []contractRun `json:"contract"`
+		}
+		if json.Unmarshal(line, &r) == nil && len(r.Contract) > 0 {
+			runs = r.Contract
+		}
+	}
+	ok := len(runs) == 2
+	var why []string
+	for _, r := range runs {
+		if r.Err != "" || len(r.Events) == 0 {
+			ok = false
+			why = append(why, fmt.Sprintf("deadline %d ms: %s", r.DeadlineMs, r.Err))
+			continue
+		}
+		for _, e := range r.Events {
+			switch {
+			case r.DeadlineMs == 0 && !e.Read:
+				ok = false
+				why = append(why, fmt.Sprintf("no deadline: event broadcast at age %d ms not read", e.AgeMs))
+			case r.DeadlineMs > 0 && e.AgeMs < r.DeadlineMs-slack && !e.Read:
+				ok = false
+				why = append(why, fmt.Sprintf("deadline %d ms: event broadcast at age %d ms not read", r.DeadlineMs, e.AgeMs))
+			case r.DeadlineMs > 0 && e.AgeMs > r.DeadlineMs+slack && e.Read:
+				ok = false
+				why = append(why, fmt.Sprintf("deadline %d ms: event broadcast at age %d ms was read", r.DeadlineMs, e.AgeMs))
+			}
+		}
+		if (r.DeadlineMs == 0) != (r.CutAgeMs < 0) {
+			ok = false
+			why = append(why, fmt.Sprintf("deadline %d ms: stream cut at age %d ms", r.DeadlineMs, r.CutAgeMs))
+		}
+	}
+	c.Extra["transport_contract_runs"] = runs
+	c.Oblige("contract", "net/http behaves as model/SseTransport.v says (real sse.Handler behind http.Server over TCP, an event every 200 ms): without WriteTimeout every event is read and the stream stays open; with WriteTimeout d every event broadcast before the connection is d old is read, none after, and the server side ends the stream",
+		ok, strings.TrimSpace(strings.Join(why, "; ")+" "+lastLines(p.errb.String(), 5)))
+}
